@@ -375,14 +375,23 @@ def run(rep: Report, prog: Program, tier: str) -> None:
                                                                    rtcpFeedback=fb(("nack", "pli"), ("transport-cc", None)))]))
     for label, remote in scen:
         offered = {describe(c) for c in remote}
+        loc_in = local_codecs()
+        rem_in = [clone(c) for c in remote]
+        snap = lambda lst: [(describe(c), [(f.type, f.parameter) for f in c.rtcpFeedback], dict(c.parameters)) for c in lst]  # noqa: E731
+        before = (snap(loc_in), snap(rem_in))
         try:
-            common = ev.call_function(fcc, [local_codecs(), [clone(c) for c in remote]])
+            common = ev.call_function(fcc, [loc_in, rem_in])
         except Raised as ex:
             rep.fail(mk_finding(prog, PROP, "C03-OFFERED", fcc, getattr(ex, "node", fcc.node), f"find_common_codecs raises {ex.name} for offer [{label}]", construct=f"raises {ex.name}"))
             continue
         except Unknown as ex:
             raise AnalysisError(f"C03-OFFERED cannot evaluate [{label}]: {ex}")
         problems = []
+        if (snap(loc_in), snap(rem_in)) != before:
+            problems.append("find_common_codecs modifies the codec objects it was given (the local capability table would change for every later negotiation)")
+        shared = [c.mimeType for c in common if any(c is x for x in loc_in)]
+        if shared:
+            problems.append(f"the selection hands out the local capability objects themselves ({shared}): adopting the offerer's payload type / feedback would edit the shared table")
         accepted: Dict[int, Any] = {}
         for c in common:
             if describe(c) not in offered:
